@@ -1,6 +1,7 @@
 """Build targets and per-property job lists for run_check.py."""
 
 OPT = ["-O2", "-DNDEBUG", "-g0", "-w"]
+SIM = ["-O1", "-DNDEBUG", "-g0", "-w", "-DBOOST_ASIO_DISABLE_EPOLL", "-fno-access-control"]
 ASAN = ["-O1", "-DNDEBUG", "-g", "-w", "-fsanitize=address", "-fno-omit-frame-pointer"]
 
 TARGETS = {
@@ -9,6 +10,9 @@ TARGETS = {
     "c08_alloc": {"sources": ["e2/c08_alloc.cpp"], "deps": ["common"], "flags": OPT + ["-fno-access-control"],
                   "fallback_flags": OPT + ["-DNO_PEEK"]},
     "c11_mutex": {"sources": ["e2/c11_mutex.cpp"], "deps": ["common"], "flags": OPT},
+    # E1 simnet: the real client over a simulated stream in virtual time
+    "simnet": {"sources": ["e1/client_generic.cpp", "e1/client_tcp.cpp", "e1/world.cpp", "e1/scenarios.cpp", "e1/main.cpp", "e1/broker.cpp", "e1/sim.cpp", "e1/vclock.cpp"],
+               "deps": ["ref", "common", "e1", "e3/glue.hpp"], "flags": SIM, "fallback_flags": SIM + ["-DSIMNET_NO_PEEK"]},
     # E3 codec / validator enumerators
     "c16_validators": {"sources": ["e3/c16_validators.cpp"], "deps": ["ref", "common"], "flags": OPT},
     "codec_enum": {"sources": ["e3/codec_enum.cpp"], "deps": ["ref", "common", "e3/glue.hpp"], "flags": OPT},
@@ -16,8 +20,19 @@ TARGETS = {
 
 ASAN_ENV = {"ASAN_OPTIONS": "detect_leaks=0:abort_on_error=1:handle_abort=0"}
 
+SIM_ASSUME = ["sim streams replace sockets (StreamType template seam); TLS/WebSocket layers not instantiated",
+              "reference broker and strict reference codec are trusted oracles",
+              "time is virtual (link-time steady_clock/system_clock/time()); DNS answers come from the harness getaddrinfo",
+              "bounds: deviations <= D per scenario as listed in coverage.jobs[].notes.scenarios"]
+
 CHECKS = {
+    "C01": {"jobs": [{"name": "simnet", "target": "simnet", "args": ["--set", "C01"], "thorough_args": ["--thorough"]}], "assumptions": SIM_ASSUME},
+    "C02": {"jobs": [{"name": "simnet", "target": "simnet", "args": ["--set", "C02"], "thorough_args": ["--thorough"]}], "assumptions": SIM_ASSUME},
+    "C03": {"jobs": [{"name": "simnet", "target": "simnet", "args": ["--set", "C03"], "thorough_args": ["--thorough"]}], "assumptions": SIM_ASSUME},
+    "C06": {"jobs": [{"name": "simnet", "target": "simnet", "args": ["--set", "C06"], "thorough_args": ["--thorough"]}], "assumptions": SIM_ASSUME},
+    "C07": {"jobs": [{"name": "simnet", "target": "simnet", "args": ["--set", "C07"], "thorough_args": ["--thorough"]}], "assumptions": SIM_ASSUME},
     "C08": {"jobs": [
+        {"name": "wire-ids", "target": "simnet", "args": ["--set", "C08"], "thorough_args": ["--thorough"]},
         {"name": "allocator-bfs", "target": "c08_alloc", "thorough_args": ["--thorough"]},
     ], "assumptions": ["window of 14 packet ids (1..7, 65529..65535) with the rest of the id space uniformly free or uniformly allocated",
                        "single-threaded use, as the library requires"]},
@@ -29,6 +44,7 @@ CHECKS = {
         {"name": "validators", "target": "c16_validators", "thorough_args": ["--thorough"]},
     ], "assumptions": ["reference recogniser transcribed from Unicode Table 3-7 and MQTT 5 sections 1.5.4, 4.7, 4.8.2"]},
     "C17": {"jobs": [
+        {"name": "wire-monitor", "target": "simnet", "args": ["--set", "C17"], "thorough_args": ["--thorough"]},
         {"name": "encoders", "target": "codec_enum", "args": ["--mode", "c17"], "thorough_args": ["--thorough"]},
     ], "assumptions": ["reference strict decoder (src/ref/mqtt_ref.hpp) is the trusted oracle", "fields > 65535 bytes and bodies > 256 MiB are outside the bound"]},
     "C18": {"jobs": [
